@@ -299,6 +299,8 @@ def memcpy_inline(m):
 
 
 MEMCPY_SUBST = [(r"\bmemcpy\(([^;]*?),\s*([^;,]*(?:\([^;]*?\))?[^;,]*?),\s*([^;,]*(?:\([^;]*?\))?[^;,]*?)\);", memcpy_inline, "iodined.c")]
+SHRINK_STEP1 = [((rx, rp.replace("QMEMPING_LEN 3", "QMEMPING_LEN 1").replace("QMEMDATA_LEN 3", "QMEMDATA_LEN 1")
+                  .replace("DNSCACHE_LEN 2", "DNSCACHE_LEN 1").replace("[DNSCACHE_LEN][72]", "[DNSCACHE_LEN][82]")) + tuple(rest)) for (rx, rp, *rest) in SHRINK_STEP]
 STUB_SC_SUBST = [(r"static int send_chunk_or_dataless\(int dns_fd, int userid, struct query \*q\)\n\{",
                   "static int real_send_chunk_or_dataless(int dns_fd, int userid, struct query *q)\n{")]
 STEP_UNITS = ["encoding.c", "base32.c", "base64.c", "base64u.c", "base128.c", "user.c", "fw_query.c", "login.c", "md5.c",
@@ -383,6 +385,101 @@ def step_jobs(tier, groups, prefix, checks=False, nl=None, only=None, timeout=15
                         functions=["handle_null_request", "check_user_and_ip", "process_downstream_ack",
                                    "handle_full_packet", "answer_from_dnscache", "answer_from_qmem", "find_available_user", "unpack_data"]))
     return jobs
+
+
+def raw_jobs(tier, groups, prefix, checks=False, harness="S_step.c"):
+    """MODE 2: raw_decode() on one datagram: raw login / data / ping / unknown command / no raw header, per slot number."""
+    jobs = []
+    G = {"G_" + g: None for g in groups}
+    cells = []
+    for cmd, cn in ((0x10, "login"), (0x20, "data"), (0x30, "ping"), (0x40, "unknown")):
+        for uid in ([0, 1, 2] if tier == "quick" else [0, 1, 2, 15]):
+            if cn == "unknown" and uid != 1:
+                continue
+            if cn == "data" and uid < 2:
+                for to in ((-1, 1 - uid) if tier == "quick" else (-1, 0, 1)):
+                    cells.append(("raw-%s-u%d-to%d" % (cn, uid, to), {"RAWCMD": hex(cmd), "UIDCELL": "(%d)" % uid, "TOCELL": "(%d)" % to}))
+            else:
+                cells.append(("raw-%s-u%d" % (cn, uid), {"RAWCMD": hex(cmd), "UIDCELL": "(%d)" % uid}))
+    cells.append(("raw-nohdr", {"RAWHDR_OK": 0, "UIDCELL": "(1)"}))
+    for cname, d in cells:
+        defs = {"MODE": 2, "NL": 20, "NU": 2, "CMDCH": "(0)", "STUB_SC": None}
+        defs.update(d)
+        defs.update(G)
+        jobs.append(Job("%s-%s" % (prefix, cname), harness, defs=defs, units=STEP_UNITS, hunits=SERVER_HUNITS, scale=STEP_B,
+                        subst=SHRINK_STEP + MEMCPY_SUBST + STUB_SC_SUBST, unwind=44,
+                        loops={"sendto": 130, "start_new_outpacket": STEP_B + 4, "save_to_outpacketq": STEP_B + 4, "send_raw": STEP_B + 4,
+                               "handle_raw_data": STEP_B + 4, "base32_reverse_init": 34},
+                        checks=checks, timeout=1500, mem_gb=6, flags=FS,
+                        desc="one raw-mode datagram (%s) to the real raw_decode() from an arbitrary valid 2-slot state" % cname,
+                        bounds="frame 0..40 bytes (all byte values after the header), 2 slots arbitrary within the invariant, scaled buffers",
+                        functions=["raw_decode", "handle_raw_login", "handle_raw_data", "handle_raw_ping", "handle_full_packet", "send_raw",
+                                   "check_user_and_ip"]))
+    return jobs
+
+
+def tun_jobs(tier, groups, prefix, checks=False, harness="S_step.c"):
+    """MODE 3: tunnel_tun() with an arbitrary packet; cell = destination slot found for its address."""
+    jobs = []
+    G = {"G_" + g: None for g in groups}
+    for to in (-1, 0, 1):
+        defs = {"MODE": 3, "NL": 20, "NU": 2, "CMDCH": "(0)", "STUB_SC": None, "TOCELL": "(%d)" % to, "UIDCELL": "(%d)" % max(to, 0)}
+        defs.update(G)
+        jobs.append(Job("%s-tun-to%d" % (prefix, to), harness, defs=defs, units=STEP_UNITS, hunits=SERVER_HUNITS, scale=STEP_B,
+                        subst=SHRINK_STEP + MEMCPY_SUBST + STUB_SC_SUBST, unwind=44,
+                        loops={"sendto": 130, "start_new_outpacket": STEP_B + 4, "save_to_outpacketq": STEP_B + 4, "send_raw": STEP_B + 4,
+                               "read_tun": 44, "base32_reverse_init": 34},
+                        checks=checks, timeout=1500, mem_gb=6, flags=FS,
+                        desc="one packet from the tun device to the real tunnel_tun() from an arbitrary valid 2-slot state, destination slot %d" % to,
+                        bounds="packet <= 40 bytes arbitrary, compress2 result arbitrary, 2 slots arbitrary within the invariant, scaled buffers",
+                        functions=["tunnel_tun", "find_user_by_ip", "start_new_outpacket", "save_to_outpacketq", "send_raw"]))
+    return jobs
+
+
+def dev_tun(tier):
+    return tun_jobs(tier, ["AUTH", "INV", "ANS"], "x", harness="S_step.c")
+
+
+def dup_jobs(tier, prefix, harness="S_step.c"):
+    """C16: MODE 5 two-step re-delivery cells + the cache/query-memory half of the emission contract on the real function."""
+    jobs = []
+    cells = [("P", 80, 1, -1, 0), ("data1", 49, 1, -1, 0)]
+    if tier != "quick":
+        cells += [("p", 112, 1, -1, 0), ("P", 80, 0, -1, 0), ("data0", 48, 0, -1, 0), ("data1", 49, 1, -1, 3), ("data1", 49, 1, 0, 0)]
+    for cn, ch, uid, to, e in cells:
+        defs = {"MODE": 5, "NL": 20, "NU": 2, "CMDCH": "(%d)" % ch, "UIDCELL": "(%d)" % uid, "TOCELL": "(%d)" % to, "ENCSEL": e,
+                "STUB_SC": None, "STUB_SC2": None}
+        jobs.append(Job("%s-redeliver-%s-u%d-to%d-e%d" % (prefix, cn, uid, to, e), harness, defs=defs, units=STEP_UNITS, hunits=SERVER_HUNITS,
+                        scale=STEP_B, subst=SHRINK_STEP1 + MEMCPY_SUBST + STUB_SC_SUBST, unwind=34,
+                        loops={"sendto": 130, "start_new_outpacket": STEP_B + 4, "save_to_outpacketq": STEP_B + 4, "save_to_dnscache": STEP_B + 4,
+                               "send_raw": STEP_B + 4, "handle_null_request": STEP_B + 4, "base32_reverse_init": 34, "base64_reverse_init": 66,
+                               "base64u_reverse_init": 66, "base128_reverse_init": 130},
+                        checks=False, timeout=2400, mem_gb=10, flags=FS,
+                        desc="request X (%s) for an authorised session, then re-delivery of the same question with another id%s" %
+                             (cn, " and changed letter case in the header" if cn.startswith("data") else ""),
+                        bounds="names <= 20 chars, 2 slots arbitrary within the invariant, scaled buffers, answer cache and query memories scaled to ONE entry (the repeat follows its original immediately), emission = contract stub that runs "
+                               "the real save_to_qmem_pingordata()/save_to_dnscache()",
+                        functions=["handle_null_request", "answer_from_dnscache", "answer_from_qmem", "answer_from_qmem_data",
+                                   "save_to_qmem_pingordata", "save_to_dnscache"]))
+    for uid, qsel, ch in ((1, 1, 80), (1, 0, 49)) if tier == "quick" else ((1, 1, 80), (1, 0, 49), (0, 0, 80), (0, 1, 48)):
+        defs = {"MODE": 4, "NL": 20, "NU": 2, "UIDCELL": uid, "QSEL": qsel, "CMDCH": "(80)", "G_DUP": None}
+        jobs.append(Job("%s-emit-dup-u%d-%s" % (prefix, uid, "q" if qsel == 0 else "qsoon"), harness, defs=defs, units=STEP_UNITS,
+                        hunits=SERVER_HUNITS, scale=STEP_B, subst=SHRINK_STEP + MEMCPY_SUBST, unwind=34,
+                        loops={"base32_reverse_init": 34, "base32_decode": 8, "send_chunk_or_dataless": STEP_B + 4, "start_new_outpacket": STEP_B + 4,
+                               "save_to_outpacketq": STEP_B + 4, "save_to_dnscache": STEP_B + 4, "send_raw": STEP_B + 4},
+                        checks=False, timeout=2400, mem_gb=12, flags=FS,
+                        desc="the real send_chunk_or_dataless(): the answered query lands in the answer cache (verbatim payload) and in the "
+                             "query memory (fingerprint)", bounds="as the emit cells",
+                        functions=["send_chunk_or_dataless", "save_to_qmem_pingordata", "save_to_dnscache"]))
+    return jobs
+
+
+def dev_dup(tier):
+    return dup_jobs(tier, "x", harness="S_step.c")
+
+
+def dev_raw(tier):
+    return raw_jobs(tier, ["AUTH", "INV"], "x", harness="S_step.c")
 
 
 def emit_jobs(tier, groups, prefix, checks=False, timeout=1500):
@@ -534,20 +631,26 @@ STEP_ASSUME = [
 
 
 def c03_jobs(tier):
-    return step_jobs(tier, ["AUTH"], "auth")
+    return step_jobs(tier, ["AUTH"], "auth") + raw_jobs(tier, ["AUTH"], "auth") + tun_jobs(tier, ["AUTH"], "auth")
 
 
 def c04_jobs(tier):
-    return step_jobs(tier, ["AUTH"], "iso", only=r"^(V|L|l|S|O|N|I|R|P|p|data[01])", fwd_quick=True)
+    return step_jobs(tier, ["AUTH"], "iso", only=r"^(V|L|l|S|O|N|I|R|P|p|data[01])", fwd_quick=True) + \
+        tun_jobs(tier, ["AUTH"], "iso") + [j for j in raw_jobs(tier, ["AUTH"], "iso") if re.search(r"raw-(login|data)-u[01]", j.name)]
 
 
 def c05_jobs(tier):
-    return step_jobs(tier, ["INV"], "safe", checks=True) + emit_jobs(tier, ["INV"], "safe", checks=True)
+    return step_jobs(tier, ["INV"], "safe", checks=True) + emit_jobs(tier, ["INV"], "safe", checks=True) + \
+        raw_jobs(tier, ["INV"], "safe", checks=True) + tun_jobs(tier, ["INV"], "safe", checks=True)
+
+
+def c16_jobs(tier):
+    return dup_jobs(tier, "dup")
 
 
 def c14_jobs(tier):
     return step_jobs(tier, ["ANS"], "ans", only=r"^(V|L|I|Z|S|O|Y|R|N|P|p|data)", fwd_quick=True) + \
-        (emit_jobs(tier, [], "ans") if tier != "quick" else [])
+        (emit_jobs(tier, [], "ans") if tier != "quick" else []) + tun_jobs(tier, ["ANS"], "ans")
 
 
 def c15_jobs(tier):
@@ -631,6 +734,20 @@ PROPS = {
                       "the size-monotonicity claim are NOT covered (no verdict within memory for the full writer->reader path).",
         "explanation": "one SAT query per (answer kind, downstream codec)",
         "assumptions": ["write_dns()'s TXT branch (three glue lines) repeated in the harness", "record framing outside the claim"],
+    },
+    "C16": {
+        "jobs": c16_jobs, "level": "model_checking",
+        "level_text": "Two-step lemma on the real dispatcher: a fresh ping/data query X to an authorised session from an arbitrary valid "
+                      "state, then its re-delivery X' (other DNS id; for data queries any letter case of the header characters): the second "
+                      "step appends nothing to the upstream buffer, writes nothing to the tun device, does not apply the ack again, changes "
+                      "no setting, and an identical repeat of an answered query receives the cached payload. The emission routine is a "
+                      "contract stub that runs the real save_to_qmem_pingordata()/save_to_dnscache(); the emit-dup cells assert on the "
+                      "real send_chunk_or_dataless() that the answered query lands in cache and query memory with exactly those contents.",
+        "level_note": "immediate repeat only: answer cache and query memories scaled to ONE entry, so 'still among the last 4/15/30' is "
+                      "not covered; downstream queue empty; query memories empty before X; names <= 20 chars; 2 slots.",
+        "explanation": "one CBMC query per cell (two handler invocations per query)",
+        "assumptions": STEP_ASSUME + ["X differs from the pending and cached questions; query memories empty; downstream queue empty",
+                                      "ids of incoming + held queries pairwise distinct"],
     },
     "C13": {
         "jobs": c13_jobs, "level": "model_checking",
